@@ -3103,6 +3103,10 @@ def ensure_value_spec(
   Raises:
     TypeError: When value_spec cannot match src_spec_type.
   """
+  if value_spec.is_noneable and not src_spec.is_noneable:
+    # Whether the destination also accepts None does not matter for matching
+    # the (non-None) source against its counterpart.
+    src_spec = copy.copy(src_spec).noneable()
   if isinstance(value_spec, Union):
     value_spec = value_spec.get_candidate(src_spec)
   if isinstance(value_spec, Any):
